@@ -147,6 +147,8 @@ impl Partition {
                 };
                 cols.entry(colname.to_string()).or_insert(Arc::new(handle));
                 drop(cols);
+                #[cfg(feature = "verif")]
+                crate::verif::sync_point("get_cols:placeholder_inserted", &self.table_name);
                 self.cols.read().unwrap()
             } else {
                 cols
